@@ -345,3 +345,173 @@ BINARY_CODINGS = [(1, 0), (0, 1), (2, 5), (5, 2), (1, -1), (-1, 1), (0, -1), (-1
                   (1000000, 0), (-1, 1000000)]
 #: level codes for exposures with more than two levels
 MULTI_LEVEL_POOL = [0, 1, 2, 3, 5, 8, 9, 16, 17, 33, -1, -2, -7, 0.5, 1.5, -0.25, 2.5, 100000]
+
+
+# ---- round 4: forms of a truncation bound, reporting / diagnostic methods, learners with the documented interfaces --------
+
+def bound_form(rng, lo, hi=None, extras=True):
+    """One of the forms in which the estimators accept a truncation bound (docstrings of `treatment_model`,
+    `exposure_model`, `outcome_model`, `probability_bounds`): a single float `lo` (symmetric: [lo, 1-lo]) or a collection
+    whose entries 0 and 1 are the lower and the upper limit -- a list or a tuple, of python floats or numpy floats,
+    possibly LONGER than two entries (documented: "Only the first two specified bounds are used", with a warning); the
+    further entries are arbitrary probabilities, so they would bite if they were used.  `hi=None`: symmetric bound,
+    handed over as a float or as the equivalent pair.  Returns (bound object, JSON-able record for `bound_of`)."""
+    if hi is None and rng.uniform() < 0.5:
+        rec = {'form': 'float', 'values': [float(lo)], 'numpy': bool(rng.uniform() < 0.3)}
+        return bound_of(rec), rec
+    vals = [float(lo), float(1 - lo if hi is None else hi)]
+    if extras and rng.uniform() < 0.5:
+        for _ in range(int(rng.integers(1, 3))):
+            vals.append(float(rng.choice([round(float(rng.uniform(0.05, 0.95)), 3), 0.5, 0.0, 1.0],
+                                         p=[0.7, 0.1, 0.1, 0.1])))
+    rec = {'form': str(rng.choice(['list', 'tuple'])), 'values': vals, 'numpy': bool(rng.uniform() < 0.3)}
+    return bound_of(rec), rec
+
+
+def bound_of(rec):
+    """the bound object described by a record of `bound_form` (None / False: no bound)"""
+    if not rec:
+        return False
+    vals = [np.float64(v) for v in rec['values']] if rec.get('numpy') else [float(v) for v in rec['values']]
+    if rec['form'] == 'float':
+        return vals[0]
+    return tuple(vals) if rec['form'] == 'tuple' else list(vals)
+
+
+def unreached_bound(rng, p, none_ok=True):
+    """a truncation bound that none of the probabilities `p` (nor 1-p) reaches, so that it must change nothing; in any
+    of the accepted forms; a limit may sit exactly on 0 / 1.  Returns (bound object, record)."""
+    p = np.asarray(p, dtype=float)
+    m = round(float(min(p.min(), 1 - p.max())) / 2, 4)
+    k = int(rng.integers(0, 4 if none_ok else 3)) if m > 0 else 3
+    if k == 3:
+        return False, None
+    if k == 0:
+        return bound_form(rng, m)
+    lo = [m / 2 or 0.0001, 0.0, m][int(rng.integers(0, 3))]
+    hi = [1 - m, 1.0, 1 - m / 2][int(rng.integers(0, 3))]
+    return bound_form(rng, lo, hi)
+
+
+def biting_bound(rng):
+    """a truncation bound well inside (0,1) -- it truncates whatever lies outside [0.2..0.5, lo+0.05..0.9]"""
+    if rng.uniform() < 0.4:
+        return bound_form(rng, round(float(rng.uniform(0.25, 0.45)), 3))
+    lo = round(float(rng.uniform(0.2, 0.5)), 3)
+    return bound_form(rng, lo, round(float(rng.uniform(lo + 0.05, 0.9)), 3))
+
+
+# reporting / diagnostic methods of the time-fixed estimators (name, needs a completed fit, draws a figure, argument maker)
+def _dec(rng):
+    return {'decimal': int(rng.integers(0, 7))}
+
+
+OBSERVERS = {
+    'IPTW': [('summary', True, False, _dec),
+             ('positivity', False, False, lambda rng: dict(_dec(rng), iptw_only=bool(rng.uniform() < 0.7))),
+             ('standardized_mean_differences', False, False, lambda rng: {'iptw_only': bool(rng.uniform() < 0.7)}),
+             ('run_diagnostics', False, True, lambda rng: {'iptw_only': bool(rng.uniform() < 0.7)}),
+             ('plot_kde', False, True, lambda rng: {'measure': str(rng.choice(['probability', 'logit']))}),
+             ('plot_boxplot', False, True, lambda rng: {'measure': str(rng.choice(['probability', 'logit']))}),
+             ('plot_love', False, True, lambda rng: {})],
+    'TimeFixedGFormula': [('run_diagnostics', False, True, _dec),
+                          ('plot_kde', False, True, lambda rng: {'fill': bool(rng.uniform() < 0.5)})],
+    'AIPTW': [('summary', True, False, _dec), ('positivity', False, False, _dec),
+              ('standardized_mean_differences', False, False, lambda rng: {}),
+              ('run_diagnostics', False, True, _dec),
+              ('plot_kde', False, True, lambda rng: {'to_plot': str(rng.choice(['exposure', 'outcome']))}),
+              ('plot_love', False, True, lambda rng: {})],
+}
+OBSERVERS['TMLE'] = OBSERVERS['AIPTW']
+
+
+def observe(obj, kind, rng, fitted, plots=0.25, p_any=1.0):
+    """Call a few (0-3) of the reporting / diagnostic methods of estimator `obj` with drawn arguments, as a user does
+    between specifying the models, fit() and reading the results.  None of them is documented to change an estimate.
+    A method that raises (several cannot run under the installed numpy / matplotlib) is recorded and otherwise ignored:
+    what is judged afterwards are the estimates.  `plots`: chance that a call may be one that draws a figure (slow);
+    `p_any`: chance that any call is made at all.  Returns the list of calls made (JSON-able)."""
+    avail = [o for o in OBSERVERS[kind] if fitted or not o[1]]
+    calls = []
+    if rng.uniform() >= p_any:
+        return calls
+    for _ in range(int(rng.integers(1 if p_any < 1 else 0, 4))):
+        cheap = [o for o in avail if not o[2]]
+        pool = avail if (rng.uniform() < plots or not cheap) else cheap
+        name, _, fig, mk = pool[int(rng.integers(0, len(pool)))]
+        kw = mk(rng)
+        try:
+            getattr(obj, name)(**kw)
+            status = 'ok'
+        except Exception as ex:      # noqa: BLE001
+            status = 'raised ' + type(ex).__name__
+        if fig:
+            import matplotlib.pyplot as plt
+            plt.close('all')
+        calls.append([name, kw, status])
+    return calls
+
+
+def replay_observers(obj, calls):
+    """repeat a recorded list of observer calls"""
+    for name, kw, _ in calls or []:
+        try:
+            getattr(obj, name)(**kw)
+        except Exception:            # noqa: BLE001
+            pass
+        import matplotlib.pyplot as plt
+        plt.close('all')
+
+
+class CellMeanLearner:
+    """User-supplied learner (custom_model=) that predicts, for every distinct row of the design matrix it is given, the
+    mean of y among the training rows with that design row (unseen rows: the overall mean).  With a design that separates
+    all covariate (x arm) cells this is the saturated model; with a sub-model's design it is that sub-model's
+    nonparametric fit.  `interface` is one of the conventions zEpid documents for custom models:
+      'proba2'  scikit-learn classifier: predict_proba -> (n, 2) columns [Pr(y=0), Pr(y=1)], predict -> class labels
+      'proba1'  pygam LogisticGAM: predict_proba -> (n,) vector of Pr(y=1), predict -> boolean labels
+      'predict' regressor / statsmodels-like: predict -> (n,) means, no predict_proba
+    `returns`: 'self' (scikit-learn) or 'new' (fit returns a fitted copy and leaves the receiver unfitted)."""
+
+    def __init__(self, interface='proba2', returns='self'):
+        self.interface = interface
+        self.returns = returns
+        self.table_ = None
+        self.overall_ = None
+        if interface != 'predict':
+            self.predict_proba = self._predict_proba
+
+    def get_params(self, deep=True):
+        return {'interface': self.interface, 'returns': self.returns}
+
+    @staticmethod
+    def _keys(X):
+        X = np.asarray(X, dtype=float)
+        return [tuple(r) for r in X.reshape(X.shape[0], -1)]
+
+    def fit(self, X, y):
+        tgt = self if self.returns == 'self' else CellMeanLearner(self.interface, self.returns)
+        tab = {}
+        yv = np.asarray(y, dtype=float)
+        for k, v in zip(self._keys(X), yv):
+            s = tab.setdefault(k, [0.0, 0])
+            s[0] += v
+            s[1] += 1
+        tgt.table_ = {k: s[0] / s[1] for k, s in tab.items()}
+        tgt.overall_ = float(yv.mean())
+        return tgt
+
+    def _means(self, X):
+        return np.array([self.table_.get(k, self.overall_) for k in self._keys(X)], dtype=float)
+
+    def _predict_proba(self, X):
+        p = self._means(X)
+        return p if self.interface == 'proba1' else np.column_stack((1 - p, p))
+
+    def predict(self, X):
+        p = self._means(X)
+        if self.interface == 'proba2':
+            return (p > 0.5).astype(int)
+        if self.interface == 'proba1':
+            return p > 0.5
+        return p
